@@ -110,3 +110,12 @@ func (c *Chain) GapBlock(num uint64, kind string) aggsync.Block {
 	}
 	return aggsync.Block{Num: num, Hash: hash, Events: evs}
 }
+
+// BlockWithDepositCount builds a bridge-store block number num (> tip) holding one deposit whose DepositCount is dc,
+// whatever the reference chain's next index is. The reference chain is NOT modified.
+func (c *Chain) BlockWithDepositCount(num uint64, dc uint32) aggsync.Block {
+	if c.Kind != Bridge || num <= c.Tip() {
+		panic("storekit: BlockWithDepositCount: bridge store and a block number above the tip only")
+	}
+	return aggsync.Block{Num: num, Hash: h("dcblk", num, uint64(dc)), Events: []any{bridgesync.Event{Bridge: MakeBridge(num, 0, dc, 7)}}}
+}
